@@ -702,6 +702,13 @@ func constrainLabelValues(desc *Desc, lvs []string, curry []curriedLabelValue) [
 		return lvs
 	}
 
+	if len(lvs)+len(curry) != len(desc.variableLabels.names) {
+		// Wrong number of label values. Leave them alone (indexing them
+		// below could go out of range); the callers report the
+		// inconsistent cardinality when validating the values.
+		return lvs
+	}
+
 	constrainedValues := make([]string, len(lvs))
 	var iCurry, iLVs int
 	for i := 0; i < len(lvs)+len(curry); i++ {
